@@ -31,6 +31,8 @@ pub enum Obj {
 
 pub struct Machine {
     pub slots: Vec<Option<Obj>>,
+    /// live filler allocations (op heappad): they move where later heap objects of the program are placed
+    pub pads: Vec<Vec<u8>>,
 }
 
 impl Machine {
@@ -39,7 +41,7 @@ impl Machine {
         for _ in 0..16 {
             slots.push(None);
         }
-        Machine { slots }
+        Machine { slots, pads: Vec::new() }
     }
     pub fn take(&mut self, i: usize) -> Option<Obj> {
         self.slots.get_mut(i).and_then(|s| s.take())
@@ -52,7 +54,10 @@ impl Machine {
     }
 }
 
+static OPS_RUN: std::sync::atomic::AtomicU64 = std::sync::atomic::AtomicU64::new(0);
+
 fn run_op(m: &mut Machine, toks: &[&str]) -> String {
+    OPS_RUN.fetch_add(1, std::sync::atomic::Ordering::Relaxed);
     if toks.is_empty() {
         return "ERR:empty".to_string();
     }
@@ -64,6 +69,21 @@ fn run_op(m: &mut Machine, toks: &[&str]) -> String {
         "selftest_hang" => loop {
             std::thread::sleep(std::time::Duration::from_millis(50));
         },
+        // dies only if this process has already run at least <n> ops: a death that depends on the history of the process
+        "selftest_abort_after" => {
+            let n: u64 = args.get(0).and_then(|x| x.parse().ok()).unwrap_or(0);
+            if OPS_RUN.load(std::sync::atomic::Ordering::Relaxed) >= n {
+                std::process::abort();
+            }
+            return "-".to_string();
+        }
+        // stk16 is handled by the program runner (it must be the first op); anywhere else it is a no-op
+        "stk16" => return "-".to_string(),
+        "heappad" => {
+            let n: usize = args.get(0).and_then(|x| x.parse().ok()).unwrap_or(40);
+            m.pads.push(vec![0x5au8; n]);
+            return "-".to_string();
+        }
         "selftest_sleep" => {
             let ms: u64 = args.get(0).and_then(|x| x.parse().ok()).unwrap_or(10);
             std::thread::sleep(std::time::Duration::from_millis(ms));
@@ -99,7 +119,73 @@ fn run_op(m: &mut Machine, toks: &[&str]) -> String {
     }
 }
 
+/// Address-space randomisation is switched off for the executor (personality ADDR_NO_RANDOMIZE, then re-exec): where the stack and the
+/// heap lie is then the same in every process, so that a fault that depends on an address (an alignment assumption) reproduces in a
+/// fresh process. If the kernel refuses, the executor runs as it is.
+fn fix_layout() {
+    use std::os::unix::process::CommandExt;
+    extern "C" {
+        fn personality(persona: std::os::raw::c_ulong) -> std::os::raw::c_int;
+    }
+    const ADDR_NO_RANDOMIZE: std::os::raw::c_ulong = 0x0040000;
+    if std::env::var_os("CX_EXEC_LAYOUT_FIXED").is_some() {
+        return;
+    }
+    unsafe {
+        let cur = personality(0xffff_ffff);
+        if cur < 0 || (cur as std::os::raw::c_ulong) & ADDR_NO_RANDOMIZE != 0 {
+            return;
+        }
+        if personality(cur as std::os::raw::c_ulong | ADDR_NO_RANDOMIZE) < 0 {
+            return;
+        }
+    }
+    if let Ok(exe) = std::env::current_exe() {
+        let _ = std::process::Command::new(exe).args(std::env::args_os().skip(1)).env("CX_EXEC_LAYOUT_FIXED", "1").exec();
+    }
+}
+
+extern "C" fn tramp(p: *mut u8) {
+    let f: &mut &mut dyn FnMut() = unsafe { &mut *(p as *mut &mut dyn FnMut()) };
+    f();
+}
+
+/// runs f with the stack pointer moved down by exactly 16 bytes: every stack object of the callee whose alignment is at most 16 lands
+/// at the other residue modulo 32
+#[cfg(target_arch = "x86_64")]
+fn call_shifted16(f: &mut dyn FnMut()) {
+    let mut fat: &mut dyn FnMut() = f;
+    let p = &mut fat as *mut &mut dyn FnMut() as *mut u8;
+    unsafe {
+        std::arch::asm!("sub rsp, 16", "call {t}", "add rsp, 16", t = in(reg) tramp as extern "C" fn(*mut u8), in("rdi") p, clobber_abi("C"));
+    }
+}
+
+#[cfg(not(target_arch = "x86_64"))]
+fn call_shifted16(f: &mut dyn FnMut()) {
+    f()
+}
+
+fn run_program(rest: &str, resp: &mut String) {
+    let mut m = Machine::new();
+    let mut first = true;
+    for op in rest.split(';') {
+        let op = op.trim();
+        if op.is_empty() {
+            continue;
+        }
+        let toks: Vec<&str> = op.split_whitespace().collect();
+        let o = run_op(&mut m, &toks);
+        if !first {
+            resp.push(';');
+        }
+        first = false;
+        resp.push_str(&o);
+    }
+}
+
 fn main() {
+    fix_layout();
     std::panic::set_hook(Box::new(|_| {}));
     let stdin = std::io::stdin();
     let stdout = std::io::stdout();
@@ -125,23 +211,13 @@ fn main() {
             Some(i) => (&l[..i], &l[i + 1..]),
             None => (l, ""),
         };
-        let mut m = Machine::new();
         let mut resp = String::with_capacity(256);
         resp.push_str(id);
         resp.push(' ');
-        let mut first = true;
-        for op in rest.split(';') {
-            let op = op.trim();
-            if op.is_empty() {
-                continue;
-            }
-            let toks: Vec<&str> = op.split_whitespace().collect();
-            let o = run_op(&mut m, &toks);
-            if !first {
-                resp.push(';');
-            }
-            first = false;
-            resp.push_str(&o);
+        if rest.trim_start().starts_with("stk16") {
+            call_shifted16(&mut || run_program(rest, &mut resp));
+        } else {
+            run_program(rest, &mut resp);
         }
         resp.push('\n');
         let _ = out.write_all(resp.as_bytes());
